@@ -257,6 +257,7 @@ def run(ck: Check, prog: Program) -> None:
     _encodable(ck, prog)
     _none_leak(ck, prog)
     _gen_stateless(ck, prog)
+    _meta_not_lazy(ck, prog)
     _name_source(ck, prog)
 
 
@@ -280,6 +281,73 @@ def _gen_stateless(ck: Check, prog: Program) -> None:
             ck.finding('GEN-STATELESS', w.func.qualname, f'{w.why} on {w.target.split(":")[0]} state: {w.text[:50]}', w.func.module.rel, w.line,
                        f'`{w.text}` writes state that outlives the generation ({w.target}): what is documented then depends on earlier '
                        f'generations / other methods (e.g. a model cached under a name is reused for a different function exposed under the same name)')
+
+
+CONSUMERS = {'list', 'tuple', 'sorted', 'set', 'frozenset', 'dict', 'sum', 'any', 'all', 'max', 'min', 'len', 'str', 'repr', 'bool'}
+
+
+def _lazy_leaves(fl, n, e: ast.expr, depth: int = 0) -> List[ast.expr]:
+    """One-shot iterators (generator expressions, map / filter / zip / iter / itertools objects) inside the VALUE `e` at node n, looking
+    through locals (flow.py), conditional expressions, displays, dict()/keyword arguments and constructor arguments; the argument of
+    a consuming call (list(..), tuple(..), sorted(..), ''.join(..)) is not part of the value."""
+    from ..effects import LAZY_ITER_CALLS
+    out: List[ast.expr] = []
+    if depth > 6:
+        return out
+    for al in fl.alts(n, e):
+        v = al.expr
+        if isinstance(v, ast.GeneratorExp):
+            out.append(v)
+        elif isinstance(v, ast.Call):
+            d = dotted(v.func)
+            if d in LAZY_ITER_CALLS:
+                out.append(v)
+            elif d == 'dict':
+                for k in v.keywords:        # dict(key=value): the values are stored as they are
+                    out += _lazy_leaves(fl, al.node or n, k.value, depth + 1)
+            elif d in CONSUMERS or (isinstance(v.func, ast.Attribute) and v.func.attr == 'join'):
+                continue
+            else:
+                for a in list(v.args) + [k.value for k in v.keywords]:
+                    a = a.value if isinstance(a, ast.Starred) else a
+                    out += _lazy_leaves(fl, al.node or n, a, depth + 1)
+        elif isinstance(v, (ast.List, ast.Tuple, ast.Set)):
+            for x in v.elts:
+                out += _lazy_leaves(fl, al.node or n, x, depth + 1)
+        elif isinstance(v, ast.Dict):
+            for x in v.values:
+                out += _lazy_leaves(fl, al.node or n, x, depth + 1)
+    return out
+
+
+def _meta_not_lazy(ck: Check, prog: Program) -> None:
+    """GEN-STATELESS (annotation side): what `annotate(...)` stores on the method for the generators to read at every generation holds
+    no one-shot iterator — the first generation would consume it and every later document would miss that part."""
+    from ..flow import Flow
+    from ..util import stmt_node_of
+    n_sites = 0
+    for f in prog.iter_funcs():
+        if not f.module.name.startswith('pjrpc.server.specs'):
+            continue
+        calls = [x for x in walk_own(f.node) if isinstance(x, ast.Call) and (dotted(x.func) or '').endswith('set_meta')]
+        if not calls:
+            continue
+        cfg = CFG(f, prog)
+        fl = Flow(cfg)
+        for c in calls:
+            n = stmt_node_of(cfg, c)
+            if n is None:
+                continue
+            n_sites += 1
+            lazy: List[ast.expr] = []
+            for k in c.keywords:
+                lazy += _lazy_leaves(fl, n, k.value)
+            ck.ob('GEN-STATELESS', f'{short(f.qualname)}: the stored annotation holds no one-shot iterator', not lazy)
+            for v in lazy:
+                ck.finding('GEN-STATELESS', f.qualname, f'one-shot iterator stored in the annotation: {norm(v)[:50]}', f.module.rel, v.lineno,
+                           f'`{norm(v)[:90]}` is stored in the method\'s annotation and read by every generation: the first one consumes it, so '
+                           f'repeating the generation yields a different document (the part is missing)')
+    ck.require('GEN-STATELESS', 'annotation stores (set_meta call sites in the specs package)', n_sites, 2)
 
 
 def _name_source(ck: Check, prog: Program) -> None:
@@ -837,6 +905,9 @@ def _dict_keys(v: ast.expr, m: FuncInfo) -> Optional[Set[str]]:
 
 
 MUTANTS = [
+    dict(name='annotation-tags-kept-as-a-generator', file='pjrpc/server/specs/openapi.py',
+         find='            tags=[\n                tag if isinstance(tag, Tag) else Tag(name=tag) for tag in tags\n            ] if',
+         replace='            tags=(\n                tag if isinstance(tag, Tag) else Tag(name=tag) for tag in tags\n            ) if', expect='GEN-STATELESS'),
     dict(name='template-not-copied', file='pjrpc/server/specs/openapi.py', find='        spec = copy.deepcopy(self._spec)\n', replace='        spec = self._spec\n',
          expect='PURE-BORROW'),
     dict(name='sort-annotation-tags-in-place', file='pjrpc/server/specs/openapi.py',
